@@ -4,7 +4,9 @@ bits      : boundary word set x indices 0..31 exhaustively (+ random words) on
             a vendor and a non-vendor Unsigned32 class; oracle = big-endian
             integer arithmetic.
 addresses : IPv4/IPv6 literals by structure; oracle = socket.inet_pton.
-time      : naive datetimes 1900..2036; oracle = integer seconds since 1900.
+time      : naive datetimes 1900..2036, built while the process time zone is the
+            default or one of 6 POSIX TZ strings (fixed offsets and DST rules);
+            oracle = integer seconds since 1900 (independent of the zone).
 """
 import datetime
 import socket
@@ -120,7 +122,12 @@ def check_addr(cls_name, lit):
     return vs
 
 
-def check_time(cls_name, dtv):
+def check_time(cls_name, dtv, tz=None):
+    with common.process_tz(tz):
+        return _check_time(cls_name, dtv)
+
+
+def _check_time(cls_name, dtv):
     common.bootstrap()
     cls = refdict.cls_obj(cls_name)
     errors = common.lib_errors()
@@ -146,7 +153,7 @@ def run_case(case):
     if k == "addr":
         return check_addr(case["cls"], case["lit"])
     if k == "time":
-        return check_time(case["cls"], case["dt"])
+        return check_time(case["cls"], case["dt"], case.get("tz"))
     raise ValueError(case)
 
 
@@ -185,7 +192,8 @@ def main(ctx):
     lits = st.one_of(gens.ipv4_lit, gens.ipv6_lit,
                      st.builds(lambda a, b: f"::ffff:{a}" if b else f"::{a}", gens.ipv4_lit, st.booleans()))
     addr = st.builds(lambda c, l: {"kind": "addr", "cls": c, "lit": l}, st.sampled_from(ADDR_CLASSES), lits)
-    tm = st.builds(lambda c, d: {"kind": "time", "cls": c, "dt": gens.dtval(d)["v"]}, st.sampled_from(TIME_CLASSES), gens.datetimes)
+    tm = st.builds(lambda c, d, tz: {"kind": "time", "cls": c, "dt": gens.dtval(d)["v"], "tz": tz}, st.sampled_from(TIME_CLASSES), gens.datetimes,
+                   st.sampled_from([None] + common.TZS))
     cases = st.one_of(bits, addr, tm)
 
     def body(case):
@@ -194,12 +202,14 @@ def main(ctx):
             f.append("bit-out-of-range" if not 0 <= case["i"] <= 31 else "bit-in-range")
         if case["kind"] == "addr":
             f.append("ipv6" if ":" in case["lit"] else "ipv4")
+        if case["kind"] == "time" and case.get("tz"):
+            f.append("time-under-non-default-tz")
         col.record(case, run_case(case), nontrivial=nontrivial(case), classes=f)
 
     common.hyp_collect(cases, body, 4000 if ctx.quick else 300000, ctx.seed)
     for path, rec in common.load_replays(PID):
         col.record(rec["case"], run_case(rec["case"]), nontrivial=True, classes=["replay"])
-    ctx.required_classes = ["bits", "addr", "time", "bit-out-of-range", "ipv6", "ipv4"]
+    ctx.required_classes = ["bits", "addr", "time", "bit-out-of-range", "ipv6", "ipv4", "time-under-non-default-tz"]
     ctx.assumptions = ["bit indices are ints; address literals without scope ids; naive datetimes"]
     ctx.shrinker = lambda sig, case: common.hyp_shrink(cases, lambda c: any(v.sig == sig for v in run_case(c)), ctx.seed, n=3000, budget_s=30) or case
     return col
